@@ -350,6 +350,9 @@ func suiteC03Hist(cfg Config, res *Result) {
 					if created || acceptedT[o.name] {
 						nt = true
 					}
+					if created && ok {
+						res.add(Finding{Kind: "oracle", Proj: "hist", Sig: "c03-ban-accepted-after-template", Case: d, Impl: "BanTag(" + o.name + ") accepted", Model: "refused: the set has already handed out a template"})
+					}
 					if ok {
 						acceptedT[o.name] = true
 					}
@@ -357,6 +360,9 @@ func suiteC03Hist(cfg Config, res *Result) {
 					ok = set.BanFilter(o.name) == nil
 					if created || acceptedF[o.name] {
 						nt = true
+					}
+					if created && ok {
+						res.add(Finding{Kind: "oracle", Proj: "hist", Sig: "c03-ban-accepted-after-template", Case: d, Impl: "BanFilter(" + o.name + ") accepted", Model: "refused: the set has already handed out a template"})
 					}
 					if ok {
 						acceptedF[o.name] = true
